@@ -904,6 +904,8 @@ class Exec(object):
             if ('G', v['n']) not in self.ctx.assumptions:
                 self.ctx.assumptions.add(('G', v['n']))
                 self.ctx.assume(gt_(g))
+                if self.alloc0 is not None:
+                    self.ctx.assume(lt(g, self.alloc0))
             return PtrV(g, gt, ('glob', gt, g))
         if k == 'func':
             return FuncV(v['n'])
